@@ -143,7 +143,7 @@ def Spec.taper (E : Env K) (thr : K) (s : Spec K) (wl : Option (List K)) :
           let a ← m.eval E w1
           validateWavelengths [w2]
           let b ← m.eval E w2
-          pure (a, b, false)
+          pure (a, b, true)
     if y1 = 0 ∧ y2 = 0 then pure Option.none
     else do
       let y ← sampleTree E m x
